@@ -24,6 +24,11 @@ try:
         rc = subprocess.call(["git", "apply", "-3", patch], cwd=wt)
         if rc == 0:
             subprocess.call(["git", "reset", "-q"], cwd=wt)
+            # the stored patch was written against an older HEAD of /repo: store it rebased
+            d2 = subprocess.check_output(["git", "diff"], cwd=wt, text=True)
+            if d2.strip():
+                open(patch, "w").write(d2)
+                res["patch_rebased"] = True
     if rc != 0:
         res["error"] = "patch does not apply to /repo HEAD"
     else:
